@@ -33,7 +33,7 @@ class RefChk:
         for sub in self.nf:
             self.layouts.setdefault(sub, [[(0, i) for i in range(len(lv))] for lv in self.boxes])
         self.data = {}
-        for sub in ('state', 'gradp', 'I_R'):
+        for sub in ('state', 'gradp', 'I_R') if payload != 'none' else ():
             self.data[sub] = []
             g = self.ghosts[sub]
             for l, lv in enumerate(self.boxes):
